@@ -249,7 +249,7 @@ fn very_many_calls(w: &mut Worker) {
 /// Hundreds of calls of script-implemented commands (flat ones, nested ones, failing ones) in one run:
 /// afterwards the variables are exactly the script's own and no temporary argument array remains.
 fn scale(w: &mut Worker) {
-    for n in with_thresholds_usize(w.tier.pick(vec![300usize], vec![300usize, 3000]), w.tier.pick(256, 4096)) {
+    for n in with_thresholds_usize(w.tier.pick(vec![300usize, 3000], vec![300usize, 3000, 12000]), w.tier.pick(256, 4096)) {
         if !w.take() {
             continue;
         }
